@@ -61,7 +61,10 @@ Complaints(r) ==
   \* re-conversion (observe_at of C07): to_sem_type(clean) must be the same semantic type as the computed one.
   \* Don't-care when the materialised type has an optional property: it is printed as `k?: undefined | T`, and whether
   \* {k?: T} contains {k: undefined} is contested (the engine's OptionalProp tag vs. TypeScript's default reading).
-  \cup (IF r.roundtrip = "F" /\ ~HasOptional(r.clean) /\ ~MentionsUndefined(r.raw) /\ ~(\E i \in DOMAIN r.tail : HasOptional(r.tail[i].ty))
+  \* the engine itself says that the type without its negations is another type (the universe may lack the deep value that
+  \* tells them apart): the dropped negation changed the meaning
+  \cup (IF r.roundtrip = "F" /\ HasNot(r.raw) /\ ~HasNot(r.clean) THEN {"negation-dropped-changes-meaning"} ELSE {})
+  \cup (IF r.roundtrip = "F" /\ ~HasNot(r.raw) /\ ~HasOptional(r.clean) /\ ~MentionsUndefined(r.raw) /\ ~(\E i \in DOMAIN r.tail : HasOptional(r.tail[i].ty))
            /\ ~\E v \in Universe(A, B) : SMem(v, r.clean, r.env, FALSE) # SMem(v, r.raw, r.env, FALSE)
         THEN {"reconverted-type-is-not-the-same-semantic-type"} ELSE {})
 
